@@ -80,7 +80,7 @@ def run(ctx):
         asg = ctx.find_field_assigns(f, "span", 1)
         ctx.ob("C03.G.with-span-shape", f.key, "one assignment to self.span", len(asg) == 1, "%d assignments" % len(asg))
         for blk, i, st in asg:
-            ctx.requires("C03.G.first-writer-wins", f, blk, "self.span = Some(node.span())", [r"has_span\(self\)=False"])
+            ctx.requires("C03.G.first-writer-wins", f, blk, "self.span = Some(node.span())", [r"^is_some\(self\.span\)=False$"])
             e = ctx.expr(f, st["r"])
             ctx.ob("C03.G.with-span-value", f.key, "value", bool(re.search(r"Some\{.*Spanned(>)?::span\(a2\)\}", e)), "assigns %s" % e)
     f = ctx.fn(E + "has_span")
@@ -263,11 +263,11 @@ def run(ctx):
         for blk, t in news:
             a0, a1 = ctx.expr(f, t["args"][0]), ctx.expr(f, t["args"][1])
             pc = ctx.pc_strs(f, blk)
-            if all(ctx._sat(d, r"is_some\(darling_core::error::Error::explicit_span\(a1\)\)=True") for d in pc):
+            if all(ctx._sat(d, r"^is_some\(a1\.span\)=True$") for d in pc):
                 kinds["explicit"] = (a0, a1)
-            elif all(ctx._sat(d, r"is_some\(darling_core::error::Error::explicit_span\(a1\)\)=False") for d in pc):
+            elif all(ctx._sat(d, r"^is_some\(a1\.span\)=False$") for d in pc):
                 kinds["callsite"] = (a0, a1)
-        ok = "explicit" in kinds and kinds["explicit"][0] == "(darling_core::error::Error::explicit_span(a1) as Some).0" and kinds["explicit"][1] == "a1.kind"
+        ok = "explicit" in kinds and kinds["explicit"][0] == "(a1.span as Some).0" and kinds["explicit"][1] == "a1.kind"
         ctx.ob("C03.G.syn-explicit-span", f.key, "syn::Error::new(explicit span, kind)", ok, "%s" % (kinds.get("explicit"),))
         ok = "callsite" in kinds and kinds["callsite"][0] == "darling_core::error::Error::span(a1)" and kinds["callsite"][1] == "a1"
         ctx.ob("C03.G.syn-callsite-with-path", f.key, "syn::Error::new(call site, full Display incl. path)", ok, "%s" % (kinds.get("callsite"),))
